@@ -34,6 +34,53 @@ if os.path.realpath(got) != os.path.realpath(src):
 # exists, so that whatever it does to the arguments before cminx.main() is part of what is observed
 mainpy = os.path.join(src, "main.py")
 args = sys.argv[1:]
+
+
+def run_main(argv):
+    if os.path.isfile(mainpy) and os.environ.get("VERIF_ENTRY", "script") == "script":
+        import runpy
+        sys.argv = [mainpy] + list(argv)
+        runpy.run_path(mainpy, run_name="__main__")
+    else:
+        cminx.main(argv)
+
+
+if os.environ.get("VERIF_HISTORY"):
+    # a whole history (GenRst.tla, route "inproc") inside this one process: edits of the inputs and calls of the command
+    # line interleaved, so that whatever a call leaves behind in the interpreter is still there for the next one
+    import json
+    import shutil
+    for op in json.load(open(os.environ["VERIF_HISTORY"])):
+        kind = op[0]
+        if kind == "append":
+            with open(op[1], "a") as fh:
+                fh.write(op[2])
+            if op[3] is not None:
+                os.utime(op[1], (op[3], op[3]))
+        elif kind == "write":
+            with open(op[1], "w") as fh:
+                fh.write(op[2])
+        elif kind == "unlink":
+            if os.path.exists(op[1]):
+                os.unlink(op[1])
+        elif kind == "toggle":
+            if os.path.exists(op[1]):
+                os.unlink(op[1])
+            else:
+                os.makedirs(os.path.dirname(op[1]), exist_ok=True)
+                with open(op[1], "w") as fh:
+                    fh.write(op[2])
+        elif kind == "snapshot":
+            if os.path.isdir(op[1]):
+                shutil.copytree(op[1], op[2], symlinks=True)
+        elif kind == "chdir":
+            os.chdir(op[1])
+        elif kind == "main":
+            run_main(op[1])
+        else:
+            sys.stderr.write("driver: unknown history operation %r\n" % (op,))
+            sys.exit(98)
+    sys.exit(0)
 for _ in range(int(os.environ.get("VERIF_REPEAT", "1"))):
     if os.path.isfile(mainpy) and os.environ.get("VERIF_ENTRY", "script") == "script":
         import runpy
